@@ -275,7 +275,8 @@ def r9_4(ctx):
         return norm(_inl94(e, sd94))
     found = {}
     for x in walk_local(f.node):
-        if isinstance(x, ast.Assign) and isinstance(x.value, ast.Call) and call_name(x.value) == "max" and x.value.args:
+        if isinstance(x, ast.Assign) and isinstance(x.value, ast.Call) and call_name(x.value) == "max" and len(x.value.args) == 1:
+            # (max(a, b) with two arguments is a clamp / one step of a running maximum - read by the loop clause below)
             a = x.value.args[0]
             key = any(k.arg == "key" for k in x.value.keywords)
             src = None
